@@ -90,6 +90,22 @@ func c07Scenarios(run *core.Run) []*protoScenario {
 			sk2.From, sk2.To = 2, 4
 			sk2.Mode, sk2.Bound, sk2.Runs = "dfs", 3, run.Pick(1500, 20000)
 			scs = append(scs, &sk2)
+			// batches consisting entirely of skipped blocks (the reader starts another batch within the same call)
+			for _, ft := range [][2]int{{3, 0}, {4, 5}, {5, 6}, {6, 0}} {
+				sk3 := base(side, 2, 5)
+				sk3.From, sk3.To = ft[0], ft[1]
+				sk3.Mode, sk3.Bound, sk3.Runs = "dfs", 2, run.Pick(600, 8000)
+				scs = append(scs, &sk3)
+			}
+			// listeners attached (the tasks run extra code between their protocol steps)
+			ls := base(side, 2, 1)
+			ls.Listen = true
+			ls.Mode, ls.Bound, ls.Runs = "dfs", -1, 60000
+			scs = append(scs, &ls)
+			ls2 := base(side, 2, 3)
+			ls2.Listen = true
+			ls2.Mode, ls2.Bound, ls2.Runs = "dfs", 3, run.Pick(2000, 20000)
+			scs = append(scs, &ls2)
 		}
 	}
 	if run.Thorough() {
